@@ -8,7 +8,7 @@ ID = "C04"
 COQ_IMPORTS = ["From HTA.model Require Import C04_Model."]
 SOURCES = {"hta/analyzers/breakdown_analysis.py": ["_get_idle_time_for_kernels", "get_temporal_breakdown"],
            "hta/utils/utils.py": ["merge_kernel_intervals", "get_kernel_type", "is_comm_kernel", "is_memory_kernel", "is_compute_kernel"]}
-TRANSLATE = [translate.gen_kernel_rules, translate.gen_launch_names]
+TRANSLATE = [translate.gen_kernel_rules, translate.gen_launch_names, translate.gen_breakdown_rules]
 INPUT_CONTRACT = True        # the loaded frame is re-checked against the file (framework.input_contract)
 N_CASES = {"quick": 400, "thorough": 6000}
 RULE = ("generated file sets, mostly profile free_overlap (device intervals anywhere on a tiny time domain: identical, nested, touching, "
@@ -110,7 +110,8 @@ LEVEL_TEXT = ("Proof: C04_parts_exact (for every ts-sorted permutation pandas ma
               "covered by computation kernels, non_compute = remainder, all >= 0, sum = kernel_time), C04_merge_measure / C04_merge_separated for "
               "merge_kernel_intervals, C04_asserts_hold; unbounded in the number of intervals. Correspondence on all seven value columns of "
               "get_temporal_breakdown."
-              " C04_resolution_independent: times multiplied by k > 0 multiply all four times by k.")
+              " C04_resolution_independent: times multiplied by k > 0 multiply all four times by k."
+              " C04_rules_follow_source: the grouping test of merge_kernel_intervals and the arithmetic of the four times are read from the source on every run (strict reading).")
 LEVEL_NOTE = ("Hand model of merge_kernel_intervals / _get_idle_time_for_kernels / idle_time_per_rank; kernel classification modelled from the three "
               "regex constants (checked literally by the translator). Time measure = number of unit cells (integer timestamps). Float division and "
               "rounding of percentages not modelled (tolerance).")
